@@ -661,9 +661,11 @@ def _calendar_routes():
         routes.append((cid, "hebrew:%s" % num.name, lambda num=num: CalendarSystem.get_hebrew_calendar(num)))
         # the factory range-checks int(month_numbering): plain ints are a working input on the unchanged tree
         try:
-            if CalendarSystem.get_hebrew_calendar(int(num)).id == cid:
-                routes.append((cid, "hebrew-int:%d" % int(num), lambda num=num: CalendarSystem.get_hebrew_calendar(int(num))))
-        except Exception:  # noqa: BLE001
+            # (a tree that refuses ints is not held to this route; one that accepts them must give the same calendar
+            # as for the enum member - a different id is reported as wrong-id by the histories below)
+            CalendarSystem.get_hebrew_calendar(int(num))
+            routes.append((cid, "hebrew-int:%d" % int(num), lambda num=num: CalendarSystem.get_hebrew_calendar(int(num))))
+        except (TypeError, ValueError):
             pass
     for pat in IslamicLeapYearPattern:
         for ep in IslamicEpoch:
